@@ -1,5 +1,47 @@
-import XlVerif.Base
-/-! Driver for C09 (stub: replaced when the property's model is built). -/
+import XlVerif.Model.Value
+import XlVerif.Spec.C09
+import XlVerif.Drv.ValueWire
+/-! Driver for C09: `C09 op <OP> <S> <S>` → `impl=<result>  spec=<B:0|B:1|->`. -/
 namespace XlVerif.Drv.C09
-def handle (_fields : List String) : String := "error=not-implemented"
+open XlVerif XlVerif.Model.Value XlVerif.Spec.C09 XlVerif.Drv.ValueWire
+
+def bw (b : Bool) : String := if b then "B:1" else "B:0"
+
+/-- what the statement demands (`-` = not constrained by the statement) -/
+def spec (op : BinOp) (a b : S) : String :=
+  match cls a, cls b with
+  | some x, some y =>
+    (match op with
+     | .lt => bw (Cls.ltb x y) | .gt => bw (Cls.ltb y x)
+     | .eq => bw (decide (x = y)) | .ne => bw (!decide (x = y))
+     | .le => bw (Cls.ltb x y || decide (x = y)) | .ge => bw (Cls.ltb y x || decide (x = y))
+     | _ => "-")
+  | _, _ =>
+    -- blank = 0 = "" = FALSE, two blanks equal; ordering with a blank is not constrained
+    let be : Option Bool :=
+      match a, b with
+      | .blank, .date _ => none | .date _, .blank => none
+      | .blank, .err _ => none | .err _, _ => none | _, .err _ => none
+      | .blank, y => some (blankEquals y)
+      | x, .blank => some (blankEquals x)
+      | _, _ => none
+    match op, be with
+    | .eq, some v => bw v
+    | .ne, some v => bw (!v)
+    | _, _ => "-"
+
+def handle (fields : List String) : String :=
+  match fields with
+  | ["op", o, a, b] =>
+    (match binopOfWire? o, S.ofWire? a, S.ofWire? b with
+     | some op, some x, some y => kv [("impl", OpR.wire (binop Ext.none op x y)), ("spec", spec op x y)]
+     | _, _, _ => "error=bad-args")
+  | ["nateq", a, b] =>
+    (match pyOfWire? a, pyOfWire? b with
+     | some x, some y =>
+       (match nativeEq x y with
+        | some v => kv [("impl", bw v)]
+        | none => "error=typed-operand")
+     | _, _ => "error=bad-args")
+  | _ => "error=bad-request"
 end XlVerif.Drv.C09
